@@ -130,6 +130,20 @@ func GenDerived(t *rapid.T, base Table, maxSteps int) Derived {
 				fn = func(x bool) bool { return x }
 			case KString:
 				fn = func(x *string) *string { return x }
+				if Lowerable(c) && rapid.Bool().Draw(t, "rebuildbytoupper") {
+					// the column is written anew by the ToUpper built-in, on the frame as it is now (sorted, filtered): its
+					// storage is then laid out in the order of the index
+					tmp := "zz-lower-tmp"
+					qf = qf.Apply(qframe.Instruction{Fn: func(x *string) *string {
+						if x == nil {
+							return nil
+						}
+						l := strings.ToLower(*x)
+						return &l
+					}, DstCol: tmp, SrcCol1: c.Name}, qframe.Instruction{Fn: "ToUpper", DstCol: c.Name, SrcCol1: tmp}).Drop(tmp)
+					d.Route = append(d.Route, "rebuild-by-ToUpper("+c.Name+")")
+					continue
+				}
 			default:
 				continue // an enum column would come back as a string column
 			}
